@@ -971,7 +971,17 @@ func c07EnumTPI(size, shard, nshards int, emit func(c07Case)) {
 								if idx%nshards != shard || !c07Pick(idx, size) {
 									continue
 								}
-								emit(c07TPICase(version, tMem, tpiSender, keys, sig, fault, sMem))
+								cs := c07TPICase(version, tMem, tpiSender, keys, sig, fault, sMem)
+								// every fourth case carries a profile key of the wrong JSON type next to the
+								// block: the rules do not read it, the verdict is that of the same invite without it
+								if k := idx / 7 % 4; k > 0 {
+									if t, err := evTree(cs.Event); err == nil {
+										ct, _ := t.get("content")
+										ct = ct.with([]string{"displayname", "is_direct", "avatar_url"}[k-1], []jv{jnum(42), jstr("yes"), {K: 'o'}}[k-1])
+										cs.Event = vfBytes(jplain(t.with("content", ct)))
+									}
+								}
+								emit(cs)
 							}
 						}
 					}
